@@ -181,6 +181,16 @@ func (s *sweepCodec) round(v interface{}) (b []byte, out interface{}, err error)
 	if err == nil && s.rd.Pos != len(b) {
 		err = fmt.Errorf("decoder consumed %d of %d bytes", s.rd.Pos, len(b))
 	}
+	if err == nil && len(b) > 2 {
+		// the same bytes through a reader that returns one byte per Read call must give the same value
+		s.rd = guard.Reader{Data: b, MaxChunk: 1}
+		out2, err2 := s.dec.ReadFrom(&s.rd)
+		if err2 != nil {
+			err = fmt.Errorf("with a reader returning one byte per Read: %v", err2)
+		} else if out2 != out && !(out2 != out2 && out != out) {
+			err = fmt.Errorf("with a reader returning one byte per Read the value is %v instead of %v", out2, out)
+		}
+	}
 	return
 }
 
